@@ -26,7 +26,7 @@ class Sink:
     def subj(self, names, svar):
         r = self.r
         x = r.random()
-        out = r.choice(NODES) if x < 0.15 else svar
+        out = r.choice(NODES) if x < 0.15 and not getattr(self, "big", False) else svar
         al = []
         if r.random() < 0.15:
             al.append("AS " + self.pick_alias(names, "sa"))
@@ -132,14 +132,28 @@ class Sink:
                    ("?s ?p ?o", ["?s", "?p", "?o"], []), ("?o \"w\"@[] ?w2", ["?o", "?w2"], []),
                    ("?s \"q\"@[?lo9,?hi9] ?x", ["?s", "?x"], []), ("?s \"q\"@[?tq,] ?x2", ["?s", "?x2"], []),
                    ("?o \"q\"@[?w,?w] ?x3", ["?o", "?x3"], [])]
+        big = getattr(self, "big", False)
+
+        def bound_subject():
+            # on the large store every clause after the first starts from a value that is already bound: no
+            # products of whole graphs (a statement that needs minutes is not a hang)
+            c = [n for n in ("?s", "?o") if n in names]
+            return r.choice(c) if c else None
+
         for i in range(k):
             if r.random() < (0.35 if i == 0 else 0.55):
-                t, ns, ts = r.choice(natural[:6] if i == 0 else natural)
-                parts.append(t)
-                names += ns
-                times += ts
-                continue
+                pool = natural[:6] if i == 0 else natural
+                if big and i > 0:
+                    pool = [x for x in pool if x[0].split()[0] in names]
+                if pool:
+                    t, ns, ts = r.choice(pool)
+                    parts.append(t)
+                    names += ns
+                    times += ts
+                    continue
             sv = "?s" if i == 0 or r.random() < 0.5 else r.choice(svars)
+            if big and i > 0:
+                sv = bound_subject() or r.choice(NODES)
             ov = "?o" if i == 0 else r.choice(["?o", "?o2", "?s"])
             parts.append("%s %s %s" % (self.subj(names, sv), self.pred(names, times, first=(i == 0)), self.obj(names, times, ov)))
         mand = list(dict.fromkeys(names))
@@ -147,6 +161,8 @@ class Sink:
         for _ in range(r.choice([0, 0, 1, 1, 2])):
             on = []
             sv = r.choice(["?s", "?o", "?s3"])
+            if big:
+                sv = bound_subject() or r.choice(NODES)
             c = "%s %s %s" % (self.subj(on, sv), self.pred(on, times), self.obj(on, times, r.choice(["?w", "?o", "?w2"])))
             parts.insert(r.randint(1, len(parts)), "OPTIONAL { %s }" % c)
             onames += [n for n in on if n not in mand]
@@ -276,6 +292,7 @@ def cases(seed, n):
     for i in range(n):
         x = s.r.random()
         store = "large" if x < 0.6 else ("populated" if x < 0.85 else "empty")
+        s.big = store == "large"
         out.append({"src": "sink", "store": store, "text": s.statement()})
     return out
 
